@@ -46,6 +46,17 @@ def shipped_case(ctx):
         src = json.load(fh)
       if r != src:
         ctx.violation('default_recipe_reexport_differs', {'file': base}, {'exported': r, 'file': src})
+  # the recipe helper shipped in recipe.py
+  try:
+    from ai_edge_quantizer import recipe as recipe_mod
+    helper = recipe_mod.dynamic_wi8_afp32()
+    qt = aeq.Quantizer(dummy, copy.deepcopy(helper))
+    r = recipes.json_recipe(qt.get_quantization_recipe())
+    ctx.count('shipped_files')
+    if r != recipes.json_recipe(helper):
+      ctx.violation('default_recipe_reexport_differs', {'file': 'recipe.dynamic_wi8_afp32()'}, {'exported': r, 'helper': helper})
+  except Exception as e:  # pylint: disable=broad-except
+    ctx.violation('shipped_recipe_does_not_load', {'file': 'recipe.dynamic_wi8_afp32()', 'exc': type(e).__name__}, str(e)[:200])
   return {}
 
 
